@@ -43,13 +43,14 @@ class StabilizerSampler(sampler.Sampler):
         results: list[cirq.Result] = []
         for param_resolver in cirq.to_resolvers(params):
             resolved_circuit = cirq.resolve_parameters(program, param_resolver)
-            measurements = self._run(resolved_circuit, repetitions=repetitions)
-            results.append(cirq.ResultDict(params=param_resolver, measurements=measurements))
+            records = self._run(resolved_circuit, repetitions=repetitions)
+            results.append(cirq.ResultDict(params=param_resolver, records=records))
         return results
 
     def _run(self, circuit: cirq.AbstractCircuit, repetitions: int) -> dict[str, np.ndarray]:
 
-        measurements: dict[str, list[np.ndarray]] = {
+        # For each key: one entry per repetition, holding every record of that key in order.
+        records: dict[str, list[np.ndarray]] = {
             key: [] for key in protocols.measurement_key_names(circuit)
         }
         qubits = circuit.all_qubits()
@@ -61,7 +62,7 @@ class StabilizerSampler(sampler.Sampler):
             for op in circuit.all_operations():
                 protocols.act_on(op, state)
 
-            for k, v in state.log_of_measurement_results.items():
-                measurements[k].append(np.array(v, dtype=np.uint8))
+            for key, key_records in state.classical_data.records.items():
+                records[str(key)].append(np.array(key_records, dtype=np.uint8))
 
-        return {k: np.array(v) for k, v in measurements.items()}
+        return {k: np.array(v) for k, v in records.items()}
